@@ -347,6 +347,74 @@ func (c *Ctx) ord7() {
 	dfail.done(1, "a failed dial/handshake deposits connDown")
 	pub.done(2, "the read routine adopts the connection only on the success path")
 	c.ord7Close(dial, hk)
+	// Close must be able to interrupt the retransmission round: the new
+	// connection is handed to connSem (from where Close takes and closes it)
+	// before the first resend
+	if rs != nil {
+		pubc := c.acc("ORD-7", cn, "connection-handed-to-connSem-before-resend")
+		for _, p := range c.Paths("ORD-7", cn) {
+			ir := p.Index(0, func(e *pathx.Event) bool { return isCallTo(e, rs) })
+			if ir < 0 {
+				continue
+			}
+			is := -1
+			for i := 0; i < ir; i++ {
+				e := &p.Events[i]
+				if e.Kind == pathx.KSend && tokenOf(e.Chan) == tkConn {
+					is = i
+				}
+			}
+			if is >= 0 && p.Events[is].Val == p.Events[ir].Args[1] {
+				pubc.pass()
+			} else {
+				pubc.fail(p, ir, "the retransmission round starts before the new connection was handed to connSem: Close waits for the whole round, which with a stalled broker does not end")
+			}
+		}
+		pubc.done(1, "connSem receives the connection that resend is about to use")
+	}
+	// the dial can be interrupted by Close (its context derives from the
+	// client's) and is bounded by PauseTimeout when one is configured
+	dctx := c.acc("ORD-7", dial, "Dialer-context-derives-from-client-context,bounded-by-PauseTimeout")
+	for _, p := range c.Paths("ORD-7", dial) {
+		if p.Start != dial.Blocks[0] {
+			continue
+		}
+		di := p.Index(0, func(e *pathx.Event) bool {
+			return e.Kind == pathx.KCall && e.Callee == nil && e.Method == nil && e.Call != nil && roleKey(e.Call.Value) == "Config.Dialer"
+		})
+		if di < 0 {
+			continue
+		}
+		arg := p.Events[di].Args[0]
+		nonZero := false
+		for _, cm := range assumed(p, 0, di) {
+			if roleKey(cm.X) == "Config.PauseTimeout" && isK(cm.Y, 0) && cm.Op == token.NEQ {
+				nonZero = true
+			}
+		}
+		fromClient := roleKey(arg) == "Client.ctx"
+		bounded := false
+		if ex, ok := arg.(*ssa.Extract); ok {
+			if call, ok := ex.Tuple.(*ssa.Call); ok && call.Call.StaticCallee() != nil && stdName(call.Call.StaticCallee()) == "context.WithTimeout" {
+				for j := 0; j < di; j++ {
+					e := &p.Events[j]
+					if e.Instr == ssa.Instruction(call) && len(e.Args) == 2 {
+						fromClient = roleKey(e.Args[0]) == "Client.ctx"
+						bounded = roleKey(e.Args[1]) == "Config.PauseTimeout"
+					}
+				}
+			}
+		}
+		switch {
+		case !fromClient:
+			dctx.fail(p, di, "the Dialer is called with a context that does not derive from the client's: Close cannot interrupt a dial in progress")
+		case nonZero && !bounded:
+			dctx.fail(p, di, "PauseTimeout is set, yet the Dialer is called with a context without that timeout: a dial that hangs blocks the read routine beyond it")
+		default:
+			dctx.pass()
+		}
+	}
+	dctx.done(2, "the context is c.ctx, wrapped in WithTimeout(PauseTimeout) when that is non-zero")
 }
 
 func pathxDialResult(p *pathx.Path) ssa.Value {
